@@ -274,5 +274,7 @@ class MultipartDecoder:
 def safe_decode(src: Union[bytes, bytearray], charset: str) -> str:
     try:
         return src.decode(charset)
-    except (UnicodeDecodeError, LookupError):
+    except (ValueError, LookupError):
+        # ValueError: UnicodeDecodeError, the plain UnicodeError of some codecs
+        # ("undefined", "idna"), a NUL in the charset name
         return src.decode("latin-1")
